@@ -260,6 +260,16 @@ def metaCodec (j : Json) : Except String Json := do
     | .ok s => Json.mkObj [("ok", cpsToStr s)]
     | .error _ => Json.mkObj [("err", "ValueError")]
   return Json.mkObj [("table_ok", TableOk forb), ("enc", encJ), ("dec", dec)]
+
+/-- the physical lines of a written file -> header lines, lines handed to the csv reader, decoded metadata -/
+def simUnframe (j : Json) : Except String Json := do
+  let lines ← j.getObjValAs? (List String) "lines"
+  if lines.any (fun l => l.isEmpty) then throw "bad-input: a physical line is never empty"
+  let r := unframe (lines.map strToCps)
+  let metaJ : Json := match parseMeta r.1 with
+    | .ok d => Json.mkObj [("ok", metaJson d)]
+    | .error _ => Json.mkObj [("err", "ValueError")]
+  return Json.mkObj [("header", toJson (r.1.map cpsToStr)), ("body", toJson (r.2.map cpsToStr)), ("meta", metaJ)]
 end C15
 
 /-! ### C10 -/
@@ -765,6 +775,7 @@ def handle (j : Json) : Except String Json := do
   | "argsort.replay" => argsortReplay j
   | "resnik.precalc" => resnikPrecalc j
   | "meta.codec" => metaCodec j
+  | "sim.unframe" => simUnframe j
   | "c17.csr" => c17csr j
   | _ => throw s!"unknown op {op}"
 end Drv
